@@ -51,11 +51,12 @@ def strategy(tier):
         st.integers(0, 6),
         st.lists(st.integers(0, 3), min_size=1, max_size=8),
         st.integers(0, 8),
-        st.integers(0, 5),
+        st.integers(0, 6),
     )
 
 
 BIG = 10 ** 20
+_NAN = float("nan")
 
 
 class _Holder:
@@ -110,7 +111,9 @@ def _check_on(S, case, first):
         if i in chain:
             sel = 3         # the vertices of a prepended chain never carry the attribute: matches lie below it
         if an == "k" and sel != 3:
-            if mode == 4:
+            if mode == 6:
+                v.k = _NAN                              # the very object that is sought - which is not == itself
+            elif mode == 4:
                 v.k = None if sel == 0 else BIG + sel   # stored None is a legitimate value to look for
             else:
                 v.k = (BIG + sel) if mode != 1 else (1000 + sel)
@@ -126,7 +129,9 @@ def _check_on(S, case, first):
         elif an == "cycles" and sel != 3:
             v.cycles = 70 + sel                 # user data named like a universe law (some vertices ARE universes)
     s = case["sought"]
-    if mode == 5:
+    if mode == 6 and an == "k":
+        sought = _NAN                                 # identical to the stored values, equal to none of them: no match
+    elif mode == 5:
         sought = _Anything()                          # == to every value: the first vertex HAVING the attribute matches
     elif mode == 4 and an in ("k", "name"):
         sought = None                                 # vertices LACKING the attribute must not match None
